@@ -16,35 +16,69 @@ def pairUp : List Tmpl → Option (List (Tmpl × Tmpl))
   | k :: v :: r => (pairUp r).map ((k, v) :: ·)
   | _ => none
 
+/-- What the op line holds. A dotted pair `( a b . c )` is not a list template: the spec is
+silent about it (`toTmpl?` = none), the model says it is pushed as written. -/
+inductive PT where
+  | lit (a : Atom)
+  | unq (k : Nat)
+  | spl (k : Nat)
+  | list (ts : List PT) (tail : Option PT)
+  | arr (ts : List PT)
+  | hash (ty : String) (ts : List PT)
+  deriving Inhabited
+
 mutual
-partial def parseT (toks : List String) : Option (Tmpl × List String) :=
+partial def parseT (toks : List String) : Option (PT × List String) :=
   match toks with
   | [] => none
   | t :: rest =>
     if t.startsWith "s:" then some (.lit (.sym (t.drop 2).toString), rest)
+    else if t.startsWith "q:" then some (.lit (.str (t.drop 2).toString), rest)
     else if t.startsWith "i:" then (t.drop 2).toString.toInt?.map (fun n => (.lit (.int n), rest))
-    else if t == "(" then (parseSeq rest ")").map (fun (ts, r) => (.list ts, r))
-    else if t == "[" then (parseSeq rest "]").map (fun (ts, r) => (.arr ts, r))
+    else if t == "(" then (parseSeq rest ")").map (fun (ts, tl, r) => (.list ts tl, r))
+    else if t == "[" then (parseSeq rest "]").bind (fun (ts, tl, r) => if tl.isNone then some (.arr ts, r) else none)
     else if t == "{" then
       match rest with
-      | ty :: rest' => do
-        let (ts, r) ← parseSeq rest' "}"
-        let kvs ← pairUp ts
-        some (.hash ty kvs, r)
+      | ty :: rest' => (parseSeq rest' "}").bind (fun (ts, tl, r) => if tl.isNone then some (.hash ty ts, r) else none)
       | [] => none
-    else if t.startsWith "U" then (t.drop 1).toString.toNat?.map (fun k => (.unquote (exprOf k), rest))
-    else if t.startsWith "S" then (t.drop 1).toString.toNat?.map (fun k => (.splice (exprOf k), rest))
+    else if t.startsWith "U" then (t.drop 1).toString.toNat?.map (fun k => (.unq k, rest))
+    else if t.startsWith "S" then (t.drop 1).toString.toNat?.map (fun k => (.spl k, rest))
     else none
-partial def parseSeq (toks : List String) (closer : String) : Option (List Tmpl × List String) :=
+partial def parseSeq (toks : List String) (closer : String) : Option (List PT × Option PT × List String) :=
   match toks with
   | [] => none
   | t :: rest =>
-    if t == closer then some ([], rest)
+    if t == closer then some ([], none, rest)
+    else if t == "." then do
+      let (x, r) ← parseT rest
+      match r with
+      | c :: r' => if c == closer then some ([], some x, r') else none
+      | [] => none
     else do
       let (x, r) ← parseT toks
-      let (xs, r') ← parseSeq r closer
-      some (x :: xs, r')
+      let (xs, tl, r') ← parseSeq r closer
+      some (x :: xs, tl, r')
 end
+
+partial def PT.toTmpl? : PT → Option Tmpl
+  | .lit a => some (.lit a)
+  | .unq k => some (.unquote (exprOf k))
+  | .spl k => some (.splice (exprOf k))
+  | .list ts none => (ts.mapM PT.toTmpl?).map .list
+  | .list _ (some _) => none
+  | .arr ts => (ts.mapM PT.toTmpl?).map .arr
+  | .hash ty ts => (ts.mapM PT.toTmpl?).bind (fun xs => (pairUp xs).map (.hash ty))
+
+instance : Inhabited Sexp := ⟨.nil⟩
+
+/-- the form as the reader / the Go API hands it to the generator -/
+partial def PT.toSexp : PT → Sexp
+  | .lit a => .atom a
+  | .unq k => mkList [.atom (.sym "unquote"), exprOf k]
+  | .spl k => mkList [.atom (.sym "unquote-splicing"), exprOf k]
+  | .list ts tl => ts.foldr (fun t acc => .cons t.toSexp acc) (match tl with | some x => x.toSexp | none => .nil)
+  | .arr ts => .arr (mkList (ts.map PT.toSexp))
+  | .hash ty ts => .hash ty (mkList (ts.map PT.toSexp))
 
 mutual
 def showS : Sexp → List String
@@ -120,23 +154,28 @@ def handle (toks : List String) : String :=
   | "t" :: _mode :: wrap :: rest =>
     let (tt, et) := splitAt rest
     match parseT tt, parseTable et true with
-    | some (t, []), some tab =>
+    | some (pt, []), some tab =>
       let H := hostOf tab
       let below : Stack := if wrap == "w" then [.val (.atom (.int 7))] else []
-      let m := match evalOn H (genTop H t.toSexp) below with
+      let form := match pt.toTmpl? with
+        | some t => t.toSexp
+        | none => pt.toSexp
+      let m := match evalOn H (genTop H form) below with
         | some (v, r) =>
           let v' := if wrap == "w" then wrap7 v else v
           s!"ok {render v'} d={r.length - below.length}"
         | none => "err"
-      let s := match subst (bindingOf tab) t with
-        | some v => s!"ok {render (if wrap == "w" then wrap7 v else v)} d=0"
-        | none => "err"
+      let s := match pt.toTmpl? with
+        | none => "-"
+        | some t => match subst (bindingOf tab) t with
+          | some v => s!"ok {render (if wrap == "w" then wrap7 v else v)} d=0"
+          | none => "err"
       s!"{m}\t{s}"
     | _, _ => "bad-op\t-"
   | "m" :: _site :: _n :: rest =>
     let (tt, av) := splitAt rest
-    match parseT tt, parseTable av false with
-    | some (t, []), some tab =>
+    match (parseT tt).bind (fun (pt, r) => if r.isEmpty then pt.toTmpl? else none), parseTable av false with
+    | some t, some tab =>
       let H := hostOf tab
       let m := match evalSQ H t.toSexp with
         | some (v, 0) => s!"x {render v} eq dep=ok"
